@@ -36,6 +36,14 @@ def jobs(tier):
                  assumes=["inductive hypothesis: counts within limits before the step"],
                  bounds="one Hello completing one incomplete connection; completed count, per-user count and both limits symbolic up to 1000; any single failing step",
                  shape="connection completion step"))
+    for k in (0, 1):
+        J.append(Job(name="connection.accept" + (f".oom{k}" if k else ""), group="C13.accept", harness="harness/C09_pending.c", defines=dict({"P": 0, "OP": 13}, **({"KOOM": k} if k else {})), real=["dbus/dbus-list.c"],
+                     env=["assert_stubs.c", "mem.c", "pool_lock.c", "msg_model.c", "msg_build.c"], checks="assert", unwind=7, unwindset=["strcmp.0:48"], timeout=300,
+                     encodes=["bus_connections_setup_connection", "bus_connections_expire_incomplete", "free_connection_data", "bus_expire_timeout_set_interval"],
+                     stubs=["libdbus connection setters / dispatch registration / loop / timeout = outcome stubs, the k-th fallible one fails (k symbolic 0..10)", "security-module hooks may refuse (symbolic)", "dbus_connection_set_data = slot with the real free function, run on clearing",
+                            "bus_context_check_all_watches = counter (its own step is accept_gate.*)"],
+                     assumes=["the accept watch fired, i.e. the gate was open: incomplete connections < max_incomplete_connections (C13 accept_gate)", "of the older incomplete connections at most one is materialised in the list, the rest are only counted", "concrete clock (the new connection has age 0)"],
+                     bounds="incomplete count 0..999 and limit 1..1000 symbolic; any single failing step of 10, or a security-module refusal" + (f"; allocation {k} fails" if k else ""), shape="accept one connection" + (" (block allocation fails)" if k else "")))
     for ns in (0, 1, 2, 3):
         J.append(Job(name=f"accept_gate.S{ns}", group="C13.accept_gate", harness="harness/C13_accept_gate.c", defines={"NSRV": ns}, real=["dbus/dbus-list.c"], env=["assert_stubs.c", "pool_lock.c", "mem.c"],
                      checks="assert", unwind=6, timeout=300, encodes=["bus_context_check_all_watches", "bus_context_get_max_incomplete_connections"],
